@@ -28,7 +28,8 @@ MEDIUM = ['linear_fingerprint', 'morgan_fingerprint', 'automorphism', 'self_sub'
           'canonicalize', 'neutralize', 'morgan_hash_smiles', 'morgan_smiles_hash', 'linear_hash_smiles', 'linear_smiles_hash', 'clean_stereo', 'clean_isotopes', 'implicify_hydrogens', 'explicify_hydrogens']
 EXPENSIVE = ['standardize', 'enumerate_kekule', 'enumerate_tautomers', 'canonicalize_log', 'standardize_log', 'neutralize_log',
              'standardize_charges_log', 'fix_resonance_log', 'implicify_hydrogens_log', 'enumerate_charged_forms', 'mcs', 'split',
-             'remove_metals_log', 'remove_acids_log', 'split_metal_salts_log']
+             'remove_metals_log', 'remove_acids_log', 'split_metal_salts_log',
+             'taut_live_np1', 'taut_live_np2', 'taut_live_np6', 'taut_live_p2', 'charged_live2']
 N_SMARTS = 44
 QRY_OBS = ['q_str', 'q_repr', 'q_atoms', 'q_bonds', 'q_len', 'q_match', 'q_match_all', 'q_match_fresh_copy', 'q_is_sub', 'q_copy_str']
 # queries as inputs (strings, copies, match lists with the memoised plan): the SMARTS panel of the worker plus forms with every
